@@ -12,9 +12,9 @@ PID = "C12"
 # (n, d, file cadence s, subdir cadence s, base file timestamp)
 CONFIGS = [
     (1, 1, 1000, 4000, 0),            # small indices: 9->10, 99->100 digit changes inside one file
-    (10, 3, 1, 10, 1394368230),       # 3-4 samples per file, non-integer rate
+    (10, 3, 1, 10, 1394333998),       # 3-4 samples per file, non-integer rate
     (10**8, 7, 60, 3600, 1500000000 // 60 * 60),  # floating point hazard in file placement
-    (1000, 1, 10, 3600, 1394368230),
+    (1000, 1, 10, 3600, 1394333998),
 ]
 
 
@@ -83,6 +83,9 @@ def run_history(args):
 
     try:
         w = drf.DigitalMetadataWriter(mdir, sc, fc, n, d, "meta")
+        poll_reader = None
+        cands = candidates(cfg)
+        poll_lo, poll_hi = max(cands[0] - 1, 0), cands[-1] + 10
         for form, ks in hist:
             part["transitions"] += 1
             if form in ("dup", "dupbatch"):
@@ -118,6 +121,12 @@ def run_history(args):
                 w.write(ks[0], data[0])
             for k, v in zip(ks, exp):
                 model.samples[k] = v
+            if poll_reader is None:
+                poll_reader = drf.DigitalMetadataReader(mdir)
+            pk = [int(x) for x in poll_reader.read(poll_lo, poll_hi)]
+            part["evaluations"] += 1
+            if pk != sorted(model.samples):
+                bad({"class": "polling_reader_stale"}, "long-lived reader, fixed query read(%d,%d): %s, written %s" % (poll_lo, poll_hi, pk, sorted(model.samples)))
             # ---- after every write: bounds, latest, placement
             r = drf.DigitalMetadataReader(mdir)
             part["evaluations"] += 3
